@@ -11,8 +11,10 @@ import (
 	"bytes"
 	"fmt"
 	"runtime"
+	"runtime/debug"
 	"strings"
 	"sync"
+	"sync/atomic"
 	"testing"
 	"time"
 
@@ -38,6 +40,8 @@ const (
 func TestMain(m *testing.M) {
 	vlib.Rule("C22: one LogBuffer per case (flush interval 1 h so only the harness causes rotations; flushFn blocks on a harness gate and captures the flushed bytes as the 'disk'). A rapid-generated schedule of steps runs on one goroutine: Append(timestamp gap in {+1ns, same, -5ns (clamped), small, exactly the interval, > interval (forces rotation)}, payload 10 B..1 MiB and occasionally > 4 MiB), ReleaseOneFlush (let the oldest queued flush complete and become visible), StartReader(start = before all / exactly an event's timestamp / 1 ns before or after one / in the future), ReaderStep. A reader mirrors SubscribeLocalMetadata: read 'disk' (released flushes, ts > last) then LoopProcessLogData until it would wait or is told to resume from disk. After every delivery the reader's sequence must be a prefix of 'all appended events with ts > start, in order' (so duplicates, reordering, gaps and torn payloads are detected at once); at quiescence (all flushes released, readers stepped to a fixpoint) it must be the complete list, and the concatenated flushes must be exactly the appended events. Non-trivial = at some reader step >= 2 rotations had happened, a flush was still pending and that reader was positioned before the end of a rotated-out buffer. Distinct = distinct written-out schedule. TestRace (thorough, -race): appender, flusher and 3 readers as real goroutines.")
 	vlib.Assume("C22: 'disk' is the captured flush stream read back in order with the ts > last filter (the persisted-log reader ReadPersistedLogBuffer itself is not exercised). The effective timestamp of an event is the one the buffer assigns (clamped to last+1). The rotation model of the harness (used only to classify cases and to steer around listed findings) is cross-checked against the observed flushes; a disagreement is reported as INCONCLUSIVE. Timer-driven flushes (loopInterval) are not exercised.")
+	// belt and braces next to dispose(): the collector works harder instead of letting a shard grow
+	debug.SetMemoryLimit(1200 << 20)
 	vlib.Main(m)
 }
 
@@ -272,7 +276,8 @@ type rig struct {
 	trace   []string
 
 	onNotify func()
-	spun     bool // a subscriber step never came back: it may hold the buffer's read lock for good
+	dead     int32 // set by dispose: flushFn stops capturing
+	spun     bool  // a subscriber step never came back: it may hold the buffer's read lock for good
 }
 
 func parseEntries(buf []byte) ([]*filer_pb.LogEntry, error) {
@@ -304,6 +309,9 @@ func newRig() *rig {
 func (r *rig) attach() {
 	r.lb = log_buffer.NewLogBuffer("c22", interval, func(start, stop time.Time, buf []byte) {
 		<-r.gate
+		if atomic.LoadInt32(&r.dead) != 0 {
+			return // the case is over: capture nothing, keep nothing
+		}
 		entries, err := parseEntries(buf)
 		c := captured{start.UnixNano(), stop.UnixNano(), entries}
 		if err != nil {
@@ -325,7 +333,14 @@ func (r *rig) notify() {
 }
 
 // dispose unblocks the flusher, stops the buffer and drops its 16 MiB.
+//
+// The buffer's interval goroutine sleeps for the whole flush interval (1 h) and
+// keeps the LogBuffer - and through its flushFn/notifyFn closures this rig -
+// reachable for that long. So everything a case has accumulated (captured flush
+// entries with their payloads, events, history, readers) is cut loose from the
+// rig here; otherwise a shard retains tens of MB per big-payload case.
 func (r *rig) dispose() {
+	atomic.StoreInt32(&r.dead, 1)
 	for i := 0; i < 512; i++ {
 		select {
 		case r.gate <- struct{}{}:
@@ -344,6 +359,14 @@ func (r *rig) dispose() {
 		r.lb.Shutdown()
 	}
 	r.lb.VerifRelease()
+	r.forget()
+}
+
+func (r *rig) forget() {
+	r.mu.Lock()
+	r.disk = nil
+	r.mu.Unlock()
+	r.events, r.readers, r.trace, r.m, r.onNotify = nil, nil, nil, nil, nil
 }
 
 func (r *rig) logf(format string, a ...interface{}) {
